@@ -1,6 +1,7 @@
 package frontspace
 
 import (
+	"embed"
 	"fmt"
 	"os"
 	"os/exec"
@@ -210,8 +211,25 @@ func LoadCorpus(scratch string, nDuden int) ([]*Prog, error) {
 	for k := 0; k < 12 && k < len(idx); k++ {
 		progs[idx[k]].Small = true
 	}
+	// hand-written valid programs on the silent-failure paths of the front end (overload probing with
+	// a failing generic instantiation, EvaluateSilent, expressionOrErr, reference-then-value fallback):
+	// added after the donor selection so that the donor set stays the one of the repository's corpus.
+	xdst := filepath.Join(scratch, "extra")
+	os.MkdirAll(xdst, 0o755)
+	xs, _ := extraFS.ReadDir("extra")
+	for _, x := range xs {
+		b, err := extraFS.ReadFile("extra/" + x.Name())
+		if err != nil || !strings.HasSuffix(x.Name(), ".ddp") {
+			continue
+		}
+		os.WriteFile(filepath.Join(xdst, x.Name()), b, 0o644)
+		add("extra", xdst, x.Name())
+	}
 	return progs, nil
 }
+
+//go:embed extra/*.ddp
+var extraFS embed.FS
 
 // Edit kinds of the mutation space.
 const (
